@@ -32,6 +32,8 @@ func runC07(c *Ctx) {
 	c.Min("U6-no-lock-while-rules-run", 24)
 	c.ruleEngineKeepsNoRules("U7-engine-keeps-no-rules-between-calls")
 	c.Min("U7-engine-keeps-no-rules-between-calls", 1)
+	c.ruleContainersOwnTheirMemory("U2-containers-own-their-memory")
+	c.Min("U2-containers-own-their-memory", 6)
 }
 
 // ruleEngineKeepsNoRules (U7): what an execution runs comes from the container it read in this call. An
